@@ -221,6 +221,10 @@ pub fn c04(cfg: &Value) {
     let (stream, log) = RecStream::new(BTreeMap::new());
     let (q, handle) = build(boxed, cap, stream);
     let returned = Returned::default();
+    // every harness-level operation (append, flush request) first touches one shared
+    // scheduler-visible marker, so that all their orders are explored even where a change under
+    // test synchronises through state the scheduler cannot see (see agg.rs)
+    let ops = metrique_writer_core::__verif::sync::Arc::new(metrique_writer_core::__verif::shadow::Shadow::new());
     let total = n;
     // with a single producer the append order is the tag order: an entry may be displaced iff
     // at least `cap` newer entries exist
@@ -230,18 +234,19 @@ pub fn c04(cfg: &Value) {
         "self" => {
             // one thread: append n entries, request a flush after `after` of them, wait for it
             let after = cfg["after"].as_u64().unwrap_or(n as u64) as usize;
-            let (q, log, returned) = (q.clone(), log.clone(), returned.clone());
+            let (q, log, returned, ops) = (q.clone(), log.clone(), returned.clone(), ops.clone());
             threads.push(thread::spawn(move || {
                 let mut pending = None;
                 for si in 0..n {
                     if si == after {
-                        pending = Some((returned.get(), q.flush_async()));
+                        pending = Some((returned.get(), { ops.touch(); q.flush_async() }));
                     }
                     let t = Tag { p: 0, seq: si as u8 };
+                    ops.touch();
                     q.append(t);
                     returned.push(t);
                 }
-                let (before, fut) = pending.unwrap_or_else(|| (returned.get(), q.flush_async()));
+                let (before, fut) = pending.unwrap_or_else(|| (returned.get(), { ops.touch(); q.flush_async() }));
                 let ((), snap) = wait_with_snapshot(fut, &log);
                 mc::outcome(format!("before={} snap={}", before.len(), log_string(&snap)));
                 check_flush_snapshot("self", &before, &snap, displaced_ok);
@@ -249,20 +254,21 @@ pub fn c04(cfg: &Value) {
         }
         "separate" => {
             {
-                let (q, returned) = (q.clone(), returned.clone());
+                let (q, returned, ops) = (q.clone(), returned.clone(), ops.clone());
                 threads.push(thread::spawn(move || {
                     for si in 0..n {
                         let t = Tag { p: 0, seq: si as u8 };
-                        q.append(t);
+                        ops.touch();
+                    q.append(t);
                         returned.push(t);
                     }
                 }));
             }
             for f in 0..flushers {
-                let (q, log, returned) = (q.clone(), log.clone(), returned.clone());
+                let (q, log, returned, ops) = (q.clone(), log.clone(), returned.clone(), ops.clone());
                 threads.push(thread::spawn(move || {
                     let before = returned.get();
-                    let fut = q.flush_async();
+                    let fut = { ops.touch(); q.flush_async() };
                     let ((), snap) = wait_with_snapshot(fut, &log);
                     mc::outcome(format!("f{f} before={} snap={}", before.len(), log_string(&snap)));
                     check_flush_snapshot("separate", &before, &snap, displaced_ok);
@@ -272,13 +278,14 @@ pub fn c04(cfg: &Value) {
         "after-shutdown" => {
             for si in 0..n {
                 let t = Tag { p: 0, seq: si as u8 };
-                q.append(t);
+                ops.touch();
+                    q.append(t);
                 returned.push(t);
             }
             drop(handle);
             // the queue has shut down: a flush request completes immediately (nothing can block)
             let before = returned.get();
-            let ((), snap) = wait_with_snapshot(q.flush_async(), &log);
+            let ((), snap) = wait_with_snapshot({ ops.touch(); q.flush_async() }, &log);
             mc::outcome(format!("after-shutdown snap={}", log_string(&snap)));
             check_flush_snapshot("after-shutdown", &before, &snap, displaced_ok);
             return;
@@ -288,11 +295,12 @@ pub fn c04(cfg: &Value) {
             // order); the writer's shutdown races the completion of the future
             for si in 0..n {
                 let t = Tag { p: 0, seq: si as u8 };
-                q.append(t);
+                ops.touch();
+                    q.append(t);
                 returned.push(t);
             }
             let before = returned.get();
-            let fut = q.flush_async();
+            let fut = { ops.touch(); q.flush_async() };
             {
                 let log = log.clone();
                 threads.push(thread::spawn(move || {
@@ -312,11 +320,12 @@ pub fn c04(cfg: &Value) {
             // append(s); flush_async(); drop(queue). The request was made on a live queue.
             for si in 0..n {
                 let t = Tag { p: 0, seq: si as u8 };
-                q.append(t);
+                ops.touch();
+                    q.append(t);
                 returned.push(t);
             }
             let before = returned.get();
-            let fut = q.flush_async();
+            let fut = { ops.touch(); q.flush_async() };
             drop(q);
             let ((), snap) = wait_with_snapshot(fut, &log);
             mc::outcome(format!("last-handle-dropped snap={}", log_string(&snap)));
